@@ -2027,13 +2027,15 @@ class SQLModel:
         sql_prefix = _list_join_expecting_list(",", col_stmts) + [
             "FROM ( SELECT * FROM "
         ]
-        sql_suffix = (
-            [" ) a"]
-            + ["GROUP BY"]
-            + _list_join_expecting_list(",", control_cols)
-            + ["ORDER BY "]  # order by not required, but nice to have
-            + _list_join_expecting_list(",", control_cols)
-        )
+        sql_suffix = [" ) a"]
+        if len(control_cols) > 0:  # no record keys: the whole table is one record
+            sql_suffix = (
+                sql_suffix
+                + ["GROUP BY"]
+                + _list_join_expecting_list(",", control_cols)
+                + ["ORDER BY "]  # order by not required, but nice to have
+                + _list_join_expecting_list(",", control_cols)
+            )
         return sql_prefix, sql_suffix
 
     # encode and name a term for use in a SQL expression
